@@ -47,10 +47,6 @@ Definition panic_allow : list allow := [
     (Unreachable "newResMapFromResourceSlice of a ONE-element slice: resWrangler.Append only fails on an id already present");
   mkAllow (mkSite "api/resmap" "(*Factory).FromResourceSlice" SkPanic 0)
     (KnownFinding "panic:api/resmap.(*Factory).FromResourceSlice:explicit-may-not-add");
-  mkAllow (mkSite "api/resmap" "getNamespacesForRoleBinding" SkAssert 0)
-    (KnownFinding "panic:api/resmap.getNamespacesForRoleBinding:conv->map[string]interface{}");
-  mkAllow (mkSite "api/resmap" "getNamespacesForRoleBinding" SkAssert 1)
-    (KnownFinding "panic:api/resmap.getNamespacesForRoleBinding:conv->string");
   (* ---- api/resource ---- *)
   mkAllow (mkSite "api/resource" "(*Factory).makeOne" SkFatal 0)
     (Unreachable "callers pass yaml.FromMap's result after its error check, nodes that survived DropLocalNodes/dropBadNodes (IsNilOrEmpty filtered), or generators.MakeConfigMap/MakeSecret results after their error check: never nil");
